@@ -172,11 +172,13 @@ func fxRuneTables(c *Ctx, fn *ssa.Function, bind fxBind) []*fxRuneTable {
 		// the runes the key is compared with inside the region
 		keys := map[rune]bool{}
 		for b := range cd.region {
-			iff, ok := b.Instrs[len(b.Instrs)-1].(*ssa.If)
-			if !ok {
-				continue
-			}
-			if bin, ok := iff.Cond.(*ssa.BinOp); ok && (bin.Op == token.EQL || bin.Op == token.NEQ) {
+			// every comparison of the key in the region, whether it is a branch
+			// condition or an operand of a value-form `a || b` (tagless switch)
+			for _, in := range b.Instrs {
+				bin, ok := in.(*ssa.BinOp)
+				if !ok || (bin.Op != token.EQL && bin.Op != token.NEQ) {
+					continue
+				}
 				for _, pair := range [][2]ssa.Value{{bin.X, bin.Y}, {bin.Y, bin.X}} {
 					if isKey(pair[0]) {
 						if r, ok := operand(pair[1], 0); ok && !isKey(pair[1]) {
@@ -192,28 +194,60 @@ func fxRuneTables(c *Ctx, fn *ssa.Function, bind fxBind) []*fxRuneTable {
 			var ins []ssa.Instruction
 			seen := map[*ssa.BasicBlock]bool{}
 			b := cd.d.Head
+			var prev *ssa.BasicBlock
+			// a condition is a comparison of the key, a boolean constant, a negation,
+			// or the phi of a value-form `a || b` / `a && b`, read through the edge taken
+			var evalB func(v ssa.Value, at, from *ssa.BasicBlock) (bool, bool)
+			evalB = func(v ssa.Value, at, from *ssa.BasicBlock) (bool, bool) {
+				switch x := v.(type) {
+				case *ssa.Const:
+					return core.ConstBool(x)
+				case *ssa.UnOp:
+					if x.Op == token.NOT {
+						r, ok := evalB(x.X, at, from)
+						return !r, ok
+					}
+				case *ssa.BinOp:
+					if x.Op != token.EQL && x.Op != token.NEQ {
+						return false, false
+					}
+					l, okl := operand(x.X, k)
+					r, okr := operand(x.Y, k)
+					if !okl || !okr {
+						return false, false
+					}
+					return (l == r) == (x.Op == token.EQL), true
+				case *ssa.Phi:
+					if x.Block() != at || from == nil {
+						return false, false
+					}
+					for i, p := range at.Preds {
+						if p == from {
+							// the edge value was computed on the path just walked
+							return evalB(x.Edges[i], p, nil)
+						}
+					}
+				}
+				return false, false
+			}
 			for b != nil && b != cd.join && !seen[b] {
 				seen[b] = true
 				ins = append(ins, b.Instrs...)
 				switch term := b.Instrs[len(b.Instrs)-1].(type) {
 				case *ssa.If:
-					bin, ok := term.Cond.(*ssa.BinOp)
-					if !ok || (bin.Op != token.EQL && bin.Op != token.NEQ) {
+					v, ok := evalB(term.Cond, b, prev)
+					if !ok {
 						good = false
 						return "", ""
 					}
-					x, okx := operand(bin.X, k)
-					y, oky := operand(bin.Y, k)
-					if !okx || !oky {
-						good = false
-						return "", ""
-					}
-					if (x == y) == (bin.Op == token.EQL) {
+					prev = b
+					if v {
 						b = b.Succs[0]
 					} else {
 						b = b.Succs[1]
 					}
 				case *ssa.Jump:
+					prev = b
 					b = b.Succs[0]
 				default:
 					b = nil // return / panic inside the table
